@@ -10,13 +10,13 @@ import Cx.Proofs.Pike
                                          `s ≤ start ≤ end ≤ e`                                     (Cx.Proofs.CapsGroups)
       `ex_start_without_end`, `ex_end_before_start`   neither holds on arbitrary automata (decide)
       `pikeCaps_wf`, `pikeCaps_groups`   the same for the Pike VM's answer
-  (c) `pikeCaps_eq_btCaps`               `SearchWithSlotTableCapturesAt` = reference for `at < len(haystack)`, up to the
+  (c) `pikeCaps_eq_btCaps`               `SearchWithSlotTableCapturesAt` = reference for every `at ≤ len(haystack)`, up to the
                                          filter of `buildCapturesFromSlots` (`normCaps`); hypotheses as for
                                          `Pike.search_eq_bt`: `anchored N = false`, `SparseDisjoint N`, `RuneOK N h`
       `pikeCaps_eq_btCaps_groups`        … and exactly the reference under the group discipline  (Cx.Proofs.CapsGroups)
       `pikeCaps_anchored_eq`             automata flagged anchored: = `btCapsAnchored` at that start (Cx.Proofs.CapsAnchored)
-      `pikeCaps_at_end`                  at `at == len(haystack)` the code keeps only group 0;
-      `ex_end_*`                         witnesses of that deviation (decide)
+      `ex_end_*_fixed`                   `at == len(haystack)`: the groups of an empty match are recorded (the code
+                                         used to answer through `matchesEmptyAt` and keep group 0 only; fixed in 729c212)
   (d) one-pass DFA: Cx.Proofs.OnePass.
   Proof route for (c): transliterated code = clean model with per-thread slots (Cx.Proofs.CapsClean) = generation-wise
   search `RG` with a seeder pseudo-thread (Cx.Proofs.CapsMulti) = level-organised DFS `FG` (Cx.Proofs.CapsOrder)
@@ -73,13 +73,13 @@ theorem finish_resOf (n : Nat) (x : Option (Nat × QT)) (hx : ∀ e t, x = some 
     | seeder => exact absurd rfl (hx e _ rfl)
 
 /-- (c) The capture search of the Pike VM returns the slots of the first accepting path of the priority DFS from
-    the leftmost matching start — for every start offset strictly inside the haystack.  `normCaps` is the filter of
-    `buildCapturesFromSlots`. -/
+    the leftmost matching start — for every start offset `at ≤ len(haystack)`, the end of the haystack included.
+    `normCaps` is the filter of `buildCapturesFromSlots`. -/
 theorem pikeCaps_eq_btCaps {N : NFA} {h : Bytes} (hna : anchored N = false) (hd : SparseDisjoint N) (hR : RuneOK N h)
-    {at_ : Nat} (hat : at_ < h.size) (n : Nat) :
+    {at_ : Nat} (hat : at_ ≤ h.size) (n : Nat) :
     pikeCaps N h at_ n = (btCaps N h at_ n).map normCaps := by
   unfold pikeCaps pikeCapsL
-  rw [if_neg (by omega), if_neg (by omega), hna]
+  rw [if_neg (by omega), hna]
   simp only [Bool.false_eq_true, ↓reduceIte]
   unfold searchCapsUnanchored
   -- the transliterated loop is the clean loop
@@ -114,42 +114,6 @@ theorem pikeCaps_eq_btCaps {N : NFA} {h : Bytes} (hna : anchored N = false) (hd 
   simp [isMQ] at this
 
 
-/-- At `at == len(haystack)` the code answers through `matchesEmptyAt` and builds no slots: group 0 is right, every
-    other group is dropped. -/
-theorem pikeCaps_at_end {N : NFA} {h : Bytes} (hna : anchored N = false) (hd : SparseDisjoint N) (hR : RuneOK N h)
-    (n : Nat) : pikeCaps N h h.size n = (btCaps N h h.size n).map (fun sl => sl.take 2 ++ unset (n - 2)) := by
-  unfold pikeCaps pikeCapsL
-  rw [if_neg (Nat.lt_irrefl _), if_pos rfl]
-  have hs := Pike.search_eq_bt hna hd hR (at_ := h.size) (Nat.le_refl _)
-  simp only [Pike.searchAt, Nat.lt_irrefl, ↓reduceIte] at hs
-  have hspan := btCaps_span N h h.size n
-  cases hb : btCaps N h h.size n with
-  | none =>
-    rw [hb] at hspan
-    simp only [Option.map_none] at hspan
-    rw [← hspan] at hs
-    split at hs
-    · cases hs
-    · rename_i hm; simp [hm]
-  | some sl =>
-    rw [hb] at hspan
-    simp only [Option.map_some] at hspan
-    rw [← hspan] at hs
-    obtain ⟨s, e, _, _, _, g0, g1, hlen, _⟩ := btCaps_wf hb
-    split at hs
-    · rename_i hm
-      simp only [Option.some.injEq, spanOf, g0, g1, Int.toNat_natCast, Prod.mk.injEq] at hs
-      obtain ⟨rfl, rfl⟩ := hs
-      simp only [hm, ↓reduceIte, Option.map_some, Option.some.injEq, buildCaps]
-      match sl, hlen, g0, g1 with
-      | [], hlen, _, _ => simp at hlen; omega
-      | [_], hlen, _, _ => simp at hlen; omega
-      | a :: b :: rest, _, g0, g1 =>
-        simp only [List.getD_cons_zero, List.getD_cons_succ] at g0 g1
-        subst g0; subst g1
-        rfl
-    · cases hs
-
 /-! ### (b) for the Pike VM -/
 
 theorem normPairs_spec : ∀ (l : Slots) (k : Nat), 
@@ -179,10 +143,10 @@ theorem normPairs_spec : ∀ (l : Slots) (k : Nat),
     · simp
     · exact hl
 
-/-- (b) for the Pike VM (start inside the haystack): group 0 is a span inside `[at, len]`, every other slot is unset
+/-- (b) for the Pike VM: group 0 is a span inside `[at, len]`, every other slot is unset
     or an offset inside the overall span -/
 theorem pikeCaps_wf {N : NFA} {h : Bytes} (hna : anchored N = false) (hd : SparseDisjoint N) (hR : RuneOK N h)
-    {at_ : Nat} (hat : at_ < h.size) {n : Nat} {sl : Slots} (hr : pikeCaps N h at_ n = some sl) :
+    {at_ : Nat} (hat : at_ ≤ h.size) {n : Nat} {sl : Slots} (hr : pikeCaps N h at_ n = some sl) :
     ∃ s e : Nat, at_ ≤ s ∧ s ≤ e ∧ e ≤ h.size ∧ sl.getD 0 0 = (s : Int) ∧ sl.getD 1 0 = (e : Int) ∧
       ∀ k, 2 ≤ k → sl.getD k (-1) = -1 ∨ ((s : Int) ≤ sl.getD k (-1) ∧ sl.getD k (-1) ≤ (e : Int)) := by
   rw [pikeCaps_eq_btCaps hna hd hR hat] at hr
@@ -243,7 +207,7 @@ theorem normCaps_id {sl : Slots} (hp : Paired (sl.drop 2)) : normCaps sl = sl :=
 /-- (c) without the filter, when the reference's groups are paired (as they are for compiled automata, where a
     group's closing state is only reached through its opening state) -/
 theorem pikeCaps_eq_btCaps_paired {N : NFA} {h : Bytes} (hna : anchored N = false) (hd : SparseDisjoint N)
-    (hR : RuneOK N h) {at_ : Nat} (hat : at_ < h.size) (n : Nat)
+    (hR : RuneOK N h) {at_ : Nat} (hat : at_ ≤ h.size) (n : Nat)
     (hp : ∀ sl, btCaps N h at_ n = some sl → Paired (sl.drop 2)) : pikeCaps N h at_ n = btCaps N h at_ n := by
   rw [pikeCaps_eq_btCaps hna hd hR hat]
   cases hb : btCaps N h at_ n with
@@ -263,13 +227,14 @@ def exStarGroup : NFA :=
       .split 4 6],
     startAnchored := 4, startUnanchored := 7 }
 
-/-- code ≠ reference at `at == len(haystack)`: `()` on the empty haystack (regexp: [0 0 0 0]) -/
+/-- `at == len(haystack)`: `()` on the empty haystack (regexp: [0 0 0 0]).  Before 729c212 the code answered
+    [0 0 -1 -1] here; now code = reference. -/
 theorem ex_end_ref : btCaps exEmptyGroup #[] 0 4 = some [0, 0, 0, 0] := by decide
-theorem ex_end_pike : pikeCaps exEmptyGroup #[] 0 4 = some [0, 0, -1, -1] := by decide
+theorem ex_end_pike_fixed : pikeCaps exEmptyGroup #[] 0 4 = some [0, 0, 0, 0] := by decide
 
-/-- `(a*)` on "a" from offset 1 (regexp on "a"[1:]: [0 0 0 0], i.e. [1 1 1 1]); from offset 0 both agree -/
+/-- `(a*)` on "a" from offset 1 (regexp on "a"[1:]: [0 0 0 0], i.e. [1 1 1 1]; before 729c212: [1 1 -1 -1]) -/
 theorem ex_end2_ref : btCaps exStarGroup #[97] 1 4 = some [1, 1, 1, 1] := by decide
-theorem ex_end2_pike : pikeCaps exStarGroup #[97] 1 4 = some [1, 1, -1, -1] := by decide
+theorem ex_end2_pike_fixed : pikeCaps exStarGroup #[97] 1 4 = some [1, 1, 1, 1] := by decide
 theorem ex_mid_ref : btCaps exStarGroup #[97] 0 4 = some [0, 1, 0, 1] := by decide
 theorem ex_mid_pike : pikeCaps exStarGroup #[97] 0 4 = some [0, 1, 0, 1] := by decide
 
@@ -313,6 +278,9 @@ theorem exStarGroup_norune (h : Bytes) : RuneOK exStarGroup h :=
   Or.inl fun q nx => ⟨(exStarGroup_get_cases q).2.1 nx, (exStarGroup_get_cases q).2.2 nx⟩
 
 example : pikeCaps exStarGroup #[98, 97, 97] 0 4 = (btCaps exStarGroup #[98, 97, 97] 0 4).map normCaps :=
+  pikeCaps_eq_btCaps exStarGroup_anchored exStarGroup_disjoint (exStarGroup_norune _) (by decide) 4
+
+example : pikeCaps exStarGroup #[98, 97, 97] 3 4 = (btCaps exStarGroup #[98, 97, 97] 3 4).map normCaps :=
   pikeCaps_eq_btCaps exStarGroup_anchored exStarGroup_disjoint (exStarGroup_norune _) (by decide) 4
 
 end Cx.Caps
